@@ -53,7 +53,7 @@ def run(ctx):
     from .. import compound_bind
 
     compound_bind.run_phase(ctx)
-    zoo_roundtrip(ctx, ctx.pick(250, 5000))
+    zoo_roundtrip(ctx, ctx.pick(250, 10**7))   # thorough: until the time budget is used
 
 
 def _eq(a, b):
